@@ -64,6 +64,8 @@ pub fn run(lines: &[String], out: &mut dyn Write) {
             nocache = LogCache { inner: None, log: Some(log.clone()) };
             dom = TotalDom::new(&inst, true, Some(log.clone()));
             nodom = TotalDom::new(&inst, false, Some(log.clone()));
+        } else if l.starts_with("RK") {
+            crate::table::COARSE_RANKING.store(l.trim().ends_with('1'), std::sync::atomic::Ordering::Relaxed);
         } else if l.starts_with("RS") {
             cache.clear();
             dom = TotalDom::new(&inst, true, Some(log.clone()));
